@@ -2,9 +2,12 @@
 // C08 — the transform is total and deterministic.
 const G = require('../lib/gspace');
 const { hash } = require('../lib/canon');
-const { product } = require('../lib/spaces');
+const { product, sequences } = require('../lib/spaces');
 
 // ---- (b) reference graphs of types on ≤3 names
+const { SYM } = require('../lib/tsyms');
+const HS = require('../lib/hspace');
+const HG = require('../lib/hgen');
 const NAMES = ['A', 'B', 'C'];
 // definition menu: how name N is declared in terms of a target M (possibly N itself)
 const DEFS = {
@@ -76,6 +79,8 @@ function requests(c) {
   if (c.sp === 'X') return [{ src: xSrc(c), opts: JSON.stringify(X_OPTS[c.first]) }, { src: xSrc(c), opts: JSON.stringify(X_OPTS[c.second]) }];
   let base;
   if (c.sp === 'G') base = { src: G.render(c), ts: !!c.ts, opts: JSON.stringify(c.o || {}) };
+  else if (c.sp === 'S') { const t = c.s.map((i) => SYM[i][1]).join(''); base = { src: `const { x, y, Comp } = __env.bound;\nconst a = <div>${t}</div>;\nconst b = <div>{x}${t}{y}</div>;\nconst d = <Comp>${t}<i/></Comp>;\n${c.s.some((i) => SYM[i][0] === 'DQ') ? '' : `const e = <p title="${t}" v-foo="${t}" />;\n`}`, opts: '{}' }; }
+  else if (c.sp === 'H') base = { src: HS.renderHistory(c.items, !!c.ts), ts: !!c.ts, opts: JSON.stringify(c.ts ? { resolveType: true, optimize: !!c.opt } : { optimize: !!c.opt }) };
   else if (c.sp === 'T') base = { src: graphSrc(c.g, c.use), ts: true, opts: JSON.stringify({ resolveType: true }) };
   else base = { src: nestSrc(c.kind, c.depth), opts: JSON.stringify({ optimize: true }) };
   return [base, Object.assign({}, base), Object.assign({}, base, { marks: 1 }), Object.assign({}, base, { marks: 7 })];
@@ -135,6 +140,21 @@ function spaces(tier) {
       },
     },
     {
+      name: 'S:text-strings',
+      bounds: { alphabet: SYM.map((s) => s[0]), max_length: thorough ? 5 : 4, placements: ['only child', 'between containers', 'first child of a component', 'attribute string and directive string (strings without a double quote)'] },
+      *gen() { for (const s of sequences(SYM.length, thorough ? 5 : 4)) yield { sp: 'S', s }; },
+    },
+    {
+      name: 'H:statement-forms',
+      bounds: { items: HG.ALL.length, ts_items: Object.keys(HS.T), note: 'every item of explorer H alone under optimize off/on; every TypeScript item alone and every ordered pair of them with resolveType on (incl. degenerate defineComponent calls)' },
+      *gen() {
+        for (const it of HG.ALL) for (const opt of [false, true]) yield { sp: 'H', items: [it], opt };
+        const T = Object.keys(HS.T).map((t) => ({ t }));
+        for (const a of T) for (const opt of [false, true]) yield { sp: 'H', items: [a], ts: true, opt };
+        for (const a of T) for (const b of T) yield { sp: 'H', items: [a, b], ts: true };
+      },
+    },
+    {
       name: 'X:cross-request-interference',
       bounds: { option_sets: Object.keys(X_OPTS), shapes: Object.keys(X_SHAPES), note: 'request A then request B (same source, different options) in one process; B is re-run first in a fresh process (second pass) and must give the same bytes; every case uses its own tag name' },
       *gen() { let i = 0; for (const shape of Object.keys(X_SHAPES)) for (const first of Object.keys(X_OPTS)) for (const second of Object.keys(X_OPTS)) if (first !== second) yield { sp: 'X', i: i++, shape, first, second }; },
@@ -144,6 +164,8 @@ function spaces(tier) {
 }
 
 function* shrink(c) {
+  if (c.sp === 'S') { for (let i = 0; i < c.s.length; i++) yield { sp: 'S', s: c.s.slice(0, i).concat(c.s.slice(i + 1)) }; return; }
+  if (c.sp === 'H') { if (c.items.length > 1) for (let i = 0; i < c.items.length; i++) yield Object.assign({}, c, { items: c.items.slice(0, i).concat(c.items.slice(i + 1)) }); if (c.opt) yield Object.assign({}, c, { opt: false }); return; }
   if (c.sp === 'X') { if (c.shape !== 'hostChild') yield Object.assign({}, c, { shape: 'hostChild' }); return; }
   if (c.sp === 'G') { for (const x of G.shrink(c)) yield Object.assign({ sp: 'G', expectDiag: gExpectDiag(x) }, x); return; }
   if (c.sp === 'N') { for (const d of DEPTHS) if (d < c.depth) yield Object.assign({}, c, { depth: d }); return; }
@@ -163,6 +185,6 @@ module.exports = {
   secondPass: true, detOf,
   secondPassRequest: (c) => (c.sp === 'X' ? requests(c)[1] : requests(c)[0]),
   spaces, requests, judge, shrink,
-  caseKey: (c) => (c.sp === 'X' ? `X:${c.shape}: ${c.first} then ${c.second}` : c.sp === 'G' ? G.key(c) : c.sp === 'N' ? `N:${c.kind}×${c.depth}` : `T:${c.use}: ${graphKey(c.g)}`),
-  depth: (c) => (c.sp === 'X' ? 1 : c.sp === 'G' ? c.attrs.length + (c.ch !== 'none') : c.sp === 'N' ? DEPTHS.indexOf(c.depth) : c.g.filter((d) => d.k !== 'lit' && d.k !== 'lits').length),
+  caseKey: (c) => (c.sp === 'S' ? 'S:' + c.s.map((i) => SYM[i][0]).join('.') : c.sp === 'H' ? 'H:' + HG.key(c.items) + (c.ts ? ' {tsx resolveType}' : '') + (c.opt ? ' {optimize}' : '') : c.sp === 'X' ? `X:${c.shape}: ${c.first} then ${c.second}` : c.sp === 'G' ? G.key(c) : c.sp === 'N' ? `N:${c.kind}×${c.depth}` : `T:${c.use}: ${graphKey(c.g)}`),
+  depth: (c) => (c.sp === 'S' ? c.s.length : c.sp === 'H' ? c.items.length : c.sp === 'X' ? 1 : c.sp === 'G' ? c.attrs.length + (c.ch !== 'none') : c.sp === 'N' ? DEPTHS.indexOf(c.depth) : c.g.filter((d) => d.k !== 'lit' && d.k !== 'lits').length),
 };
